@@ -200,6 +200,51 @@ def run_history(ctx, name, rng, nsets, length):
   ctx.sample(dict(estimator=name, ops=ops, dims=[dd['d'] for dd in datasets]), limit=5)
 
 
+def array_param_lane(ctx):
+  """array-valued hyper-parameters (prior / init) in every memory layout and dtype a caller may pass: fit leaves the array
+  and get_params untouched, and fitting again (same object, and a clone taken AFTER the first fit) gives the same model"""
+  from sklearn.base import clone
+  rng = np.random.default_rng(ctx.seed + 77)
+  targets = [('ITML', 'prior'), ('ITML_Supervised', 'prior'), ('MMC', 'init'), ('MMC_Supervised', 'init'),
+             ('LSML', 'prior'), ('LSML_Supervised', 'prior'), ('SDML', 'prior'), ('SDML_Supervised', 'prior'),
+             ('LMNN', 'init'), ('NCA', 'init'), ('MLKR', 'init')]
+  for name, pname in targets:
+    data = fits.make_data(rng, d=int(rng.integers(2, 5)))
+    d = data['d']
+    B = fits.grid(rng.standard_normal((d, d)), 4)
+    A0 = B.T.dot(B) + np.eye(d) if pname == 'prior' or name.startswith('MMC') else fits.grid(rng.standard_normal((d, d)), 4)
+    for lay in ('C', 'F', 'strided', 'float32'):
+      A = fits.relayout(A0, lay) if lay != 'float32' else A0.astype(np.float32)
+      kw = fits.base_kwargs(name, data)
+      kw[pname] = A
+      try:
+        kw = fits.sdml_fix_balance(name, kw, data)
+      except Exception:
+        continue
+      ctx.count('array_parameters', 1)
+      ctx.seen((name, pname, lay), True)
+      before = digest(A)
+      try:
+        with warnings.catch_warnings():
+          warnings.simplefilter('ignore')
+          est = fits.make_estimator(name, kw).fit(*fits.fit_args(name, data))
+          first = np.array(est.components_)
+          same_obj = est.get_params()[pname] is A
+          after = digest(A)
+          second = np.array(est.fit(*fits.fit_args(name, data)).components_)
+          third = np.array(clone(est).fit(*fits.fit_args(name, data)).components_)
+      except Exception as ex:
+        ctx.fail_input('array_parameters', '%s(%s=<%s array>): fit / refit / clone raises %s' % (name, pname, lay, type(ex).__name__),
+                       dict(estimator=name, parameter=pname, layout=lay), observed=str(ex)[:200])
+        continue
+      inp = dict(estimator=name, parameter=pname, layout=lay, array=np.asarray(A0).tolist(), X=data['X'].tolist())
+      if before != after or not same_obj:
+        ctx.fail_input('arguments_unmodified', 'fit modifies the array passed as `%s` (layout %s)' % (pname, lay), inp,
+                       observed=np.asarray(A).tolist())
+      elif not (np.array_equal(first, second, equal_nan=True) and np.array_equal(first, third, equal_nan=True)):
+        ctx.fail_input('history_independent', 'fitting again / fitting a clone taken after the first fit gives another model (%s=<%s array>)' % (pname, lay), inp)
+
+
 def run(ctx):
   thorough = ctx.tier == 'thorough'
   ctx.rule = ("random operation sequences (length 3..8) over {fit(data_i), set_params, set_threshold, calibrate_threshold, "
@@ -212,6 +257,7 @@ def run(ctx):
                  "determinism of numpy/scipy/scikit-learn kernels for equal inputs (explored, PYTHONHASHSEED fixed)",
                  "argument immutability is an aliasing property: explored by hashing bytes, not modelled"]
   ctx.build_property(gen_needed=['Src_prepare', 'Src_query'])
+  array_param_lane(ctx)
   reps = 12 if thorough else 2
   for name in fits.NAMES:
     for r in range(reps):
